@@ -23,11 +23,27 @@ def getKeyAux : List UInt8 → Nat → Key → Key
 def getKey? (s : Str) (depth : Nat) : Option Key :=
   if depth ≤ s.length then some (getKeyAux (s.drop depth) 8 0) else none
 
-/-- `clz(a ^ b) / 8` -/
-def lcpKeyType (a b : Key) : Nat := (a ^^^ b).clz.toNat / 8
+/-! Integer widths.  Where the C++ stores a value into a type narrower than `size_t` the model
+applies the same truncation, so that a value that does not fit is visible in the model (and makes
+the theorems fail) instead of being silently assumed away:
+`unsigned char` / `std::uint8_t` (return type of `lcpKeyType` / `lcpKeyDepth`, `splitter_lcp[]`,
+`MKQSStep::lcp_lt_/lcp_eq_/lcp_gt_`), `std::uint16_t` (bucket ids in `bktcache`),
+`LcpType = std::uint32_t` (every `set_lcp` / `fill_lcp` of the public entry points). -/
 
-/-- `sizeof(KeyType) - ctz(a) / 8` -/
-def lcpKeyDepth (a : Key) : Nat := 8 - a.ctz.toNat / 8
+/-- store into `unsigned char` / `std::uint8_t` -/
+def u8 (n : Nat) : Nat := n % 256
+
+/-- store into `std::uint16_t` -/
+def u16 (n : Nat) : Nat := n % 65536
+
+/-- store into `LcpType` (`std::uint32_t` for `sort_strings_parallel_lcp`) -/
+def lcpT (n : Nat) : Nat := n % 4294967296
+
+/-- `unsigned char lcpKeyType(a, b)`: `clz(a ^ b) / 8` -/
+def lcpKeyType (a b : Key) : Nat := u8 ((a ^^^ b).clz.toNat / 8)
+
+/-- `unsigned char lcpKeyDepth(a)`: `sizeof(KeyType) - ctz(a) / 8` -/
+def lcpKeyDepth (a : Key) : Nat := u8 (8 - a.ctz.toNat / 8)
 
 /-- `static_cast<unsigned char>(a >> (8 * (sizeof(KeyType) - 1 - d)))` -/
 def getCharAtDepth (a : Key) (d : Nat) : UInt8 := ⟨(a >>> (8 * (7 - d))).setWidth 8⟩
@@ -37,8 +53,8 @@ def lowByte (a : Key) : Nat := (a &&& 0xFF#64).toNat
 
 /-! 32-bit key type (`key_type = uint32_t` parameter sets): only the helper
 functions are modelled, for the `keyfn` correspondence. -/
-def lcpKeyType32 (a b : BitVec 32) : Nat := (a ^^^ b).clz.toNat / 8
-def lcpKeyDepth32 (a : BitVec 32) : Nat := 4 - a.ctz.toNat / 8
+def lcpKeyType32 (a b : BitVec 32) : Nat := u8 ((a ^^^ b).clz.toNat / 8)
+def lcpKeyDepth32 (a : BitVec 32) : Nat := u8 (4 - a.ctz.toNat / 8)
 def getCharAtDepth32 (a : BitVec 32) (d : Nat) : UInt8 := ⟨(a >>> (8 * (3 - d))).setWidth 8⟩
 def getKey32? (s : Str) (depth : Nat) : Option (BitVec 32) :=
   if depth ≤ s.length then some ((getKeyAux (s.drop depth |>.take 4) 8 0 >>> 32).setWidth 32) else none
